@@ -24,7 +24,8 @@ CODES = [0, 7, 9] + list(range(0x100, 0x111)) + [0x200, 0x201, 0x202, 2**62 - 1]
 class C07(Prop):
     id = "C07"
     thorough_rounds = 12   # thorough tier: this many independently seeded rounds of the random generators (duplicates dropped)
-    modules = ["H3.Props.C07", "H3.Lemmas.GenAgreeReq", "H3.Lemmas.GenAgreeFrame"]
+    modules = ["H3.Props.C07", "H3.Lemmas.GenAgreeReq", "H3.Lemmas.GenAgreeFrame", "H3.Lemmas.Iso", "H3.Lemmas.IsoLift",
+               "H3.Lemmas.IsoPolledFS", "H3.Lemmas.IsoPolledReq", "H3.Lemmas.IsoPolled"]
     engines = ["iso"]
     design_ref = "DESIGN.md section 7, C07"
     level_text = ("Lean theorems over the product machine H3.Iso (any number of request machines = the C03 receive machine over the "
@@ -39,10 +40,27 @@ class C07(Prop):
                   "is told a connection-level error, what any stream sees = the run of its own events alone = the run without the "
                   "faulted streams = the run with other faults), C07_interleaving_irrelevant + C07_adjacent_swap (same per-stream "
                   "event order => same per-stream view, cell, close calls), C07_connection_stays_open (cell empty and no close call "
-                  "after every prefix), C07_healthy_stream_delivers_partial (composition with C03_valid_message_delivered: head, body = "
-                  "its own DATA payloads in order, end, trailers; conditional on C03's frame-layer interface FrameSim and on the "
-                  "stream's own deliveries preceding its own polls)")
-    level_note = ("trusted: Lean kernel + 3 axioms; the request machine, FrameStream and error-cell models (tied by the C02/C03/C05 runs) "
+                  "after every prefix), C07_healthy_stream_delivers (composition with the closed lifting of C03 - lift_exists / "
+                  "liftR_sim, no frame-layer hypothesis: a stream whose own transport events are ANY cutting into non-empty chunks of "
+                  "the bytes of a valid message - valid = the C02 reference automaton reads HEADERS h, DATA payloads ds, HEADERS t iff "
+                  "trailers, and ends on a frame boundary - followed by FIN, then head and body polls: head, body = its own DATA "
+                  "payloads in order, end, trailers iff present, nothing reset, connection open, under every interleaving with the other "
+                  "streams, their faults and the driver), C07_healthy_stream_delivers_polled (the same with the stream's own polls "
+                  "interleaved with its own deliveries in ANY way: every call of the documented pattern polled again while it answers "
+                  "Pending, more bytes arriving between any two polls, the last poll after FIN; stated on the digest = answers with "
+                  "Pending left out; proof = invariant over every schedule, C02's pollNext_preserves / pollData_spec per frame-layer "
+                  "call), C07_healthy_stream_prefix_polled (at every earlier point: nothing, or the head and a PREFIX of its own DATA "
+                  "payloads; end only with all of them; never an error), C07_healthy_stream_schedule_irrelevant (two cuttings, two "
+                  "schedules, two histories: same head, body bytes, trailers), C07_healthy_stream_polled_as_delivered_first (its instance: "
+                  "polled again after every Pending = everything delivered first; follows_delivered_first); "
+                  "C07_healthy_stream_delivers_partial kept for the record "
+                  "(conditional on FrameSim, superseded)")
+    level_note = ("remaining hypotheses of the healthy-stream theorems (all decidable statements about the stream's own bytes or the "
+                  "oracle): chunks non-empty, no DATA frame of usize::MAX bytes, the header oracle accepts the head block and the "
+                  "trailer block within the limit, the loop bound of a body poll exceeds the number of frame-layer tokens; the "
+                  "application follows the documented pattern (follows, decidable) and makes no send calls in between (send half "
+                  "is independent of the receive half in the model). "
+                  "trusted: Lean kernel + 3 axioms; the request machine, FrameStream and error-cell models (tied by the C02/C03/C05 runs) "
                   "and the product H3.Iso, whose prediction for every scenario line is compared with the real h3 endpoint by this run "
                   "(model half of the driver = H3.Iso run on the line); header validity/size is an oracle parameter (C10/C11/C12); "
                   "granularity = one poll of one task or one transport event, write credit unlimited (C14), grease frame off; real "
